@@ -58,3 +58,216 @@ Proof.
   rewrite (tap_forward_delivers d tw ids colmaps big X Ht Hbig p) by (rewrite <- Hl; exact Hp).
   rewrite (forward_delivers d w ids colmaps big X Hs Hbig p Hp). reflexivity.
 Qed.
+
+(* ---------- reverse exchange of the node-aware package: homomorphic image of the symbolic run ---------- *)
+Section TapReverse.
+Variable F : Type.
+Variables (zero one : F) (add mul sub : F -> F -> F) (opp : F -> F).
+Variable Fth : ring_theory zero one add mul sub opp (@eq F).
+Add Ring FringT : Fth.
+Notation sumF := (sumf F zero add).
+Variable ys : list (list F).
+Notation tok := (nat * nat)%type.
+Definition hv (l : list tok) : F := sumF (map (val zero ys) l).
+
+Lemma hv_app l1 l2 : hv (l1 ++ l2) = add (hv l1) (hv l2).
+Proof. unfold hv. rewrite map_app. apply (sumf_app F zero one add mul sub opp Fth). Qed.
+Lemma hv_nil : hv [] = zero.
+Proof. reflexivity. Qed.
+
+Lemma pack_pos_h (vals : list (list tok)) pos : map hv (pack_pos [] vals pos) = pack_pos zero (map hv vals) pos.
+Proof. unfold pack_pos. rewrite map_map. apply map_ext. intros i. rewrite <- hv_nil. symmetry. apply map_nth. Qed.
+
+Lemma seg_h (w : world) (packed : list (list (list tok))) p q :
+  map hv (seg w packed p q) = seg w (map (map hv) packed) p q.
+Proof.
+  unfold seg. destruct (find_recv q 0 (recv_msgs (pk w p))) as [[off cnt]|]; [|reflexivity].
+  rewrite <- firstn_map, <- skipn_map. f_equal. f_equal.
+  change (@nil F) with (map hv []). rewrite map_nth. reflexivity.
+Qed.
+
+Lemma rev_buf_h (w : world) (packed : list (list (list tok))) q :
+  map hv (rev_buf [] w packed q) = rev_buf zero w (map (map hv) packed) q.
+Proof.
+  unfold rev_buf. induction (send_msgs (pk w q)) as [|m ms IH]; simpl; [reflexivity|].
+  rewrite map_app, IH. f_equal. rewrite (fit_map hv []). rewrite seg_h. reflexivity.
+Qed.
+
+Lemma dup_fold_h (buf : list (list tok)) ks : forall acc,
+  hv (fold_left (fun t k => t ++ nth k buf []) ks acc)
+  = fold_left (fun t k => add t (nth k (map hv buf) zero)) ks (hv acc).
+Proof.
+  induction ks as [|k ks IH]; intros acc; simpl; [reflexivity|].
+  rewrite IH, hv_app. f_equal. f_equal. rewrite <- hv_nil. symmetry. apply map_nth.
+Qed.
+
+Lemma dup_combine_h dup (buf : list (list tok)) :
+  map hv (dup_combine [] (@app tok) [] dup buf) = dup_combine zero add zero dup (map hv buf).
+Proof. unfold dup_combine. rewrite map_map. apply map_ext. intros ks. apply dup_fold_h. Qed.
+
+Lemma all_ranks_map {X Y} (g : X -> Y) tw (f : nat -> X) : map g (all_ranks tw f) = all_ranks tw (fun p => g (f p)).
+Proof. unfold all_ranks. rewrite map_map. reflexivity. Qed.
+
+Definition zipadd (init : list F) (rs : list (list tok)) : list F :=
+  map (fun bw => add (fst bw) (hv (snd bw))) (combine init rs).
+
+Lemma step_zipadd (init : list F) rs i (l : list tok) :
+  length rs = length init ->
+  zipadd init (upd_with (fun b => b ++ l) i rs) = upd_with (fun b => add b (hv l)) i (zipadd init rs).
+Proof.
+  unfold zipadd. revert rs i. induction init as [|b0 init IH]; intros [|r rs] i Hl; simpl in *; try discriminate.
+  - destruct i; reflexivity.
+  - destruct i as [|i]; simpl.
+    + f_equal. rewrite hv_app. ring.
+    + f_equal. apply IH. lia.
+Qed.
+
+Lemma apply_msg_zipadd (init : list F) rs idxs (ls : list (list tok)) :
+  length rs = length init ->
+  zipadd init (apply_msg (@app tok) rs idxs ls) = apply_msg add (zipadd init rs) idxs (map hv ls)
+  /\ length (apply_msg (@app tok) rs idxs ls) = length init.
+Proof.
+  unfold apply_msg. revert rs ls. induction idxs as [|i idxs IH]; intros rs ls Hl.
+  - simpl. split; [reflexivity|exact Hl].
+  - destruct ls as [|l ls]; simpl; [split; [reflexivity|exact Hl]|].
+    specialize (IH (upd_with (fun b => b ++ l) i rs) ls).
+    rewrite upd_with_length in IH. specialize (IH Hl). destruct IH as [IH1 IH2].
+    split; [|exact IH2]. rewrite IH1, step_zipadd by exact Hl. reflexivity.
+Qed.
+
+Lemma apply_msg_add_init (res0 res1 : list F) idxs vals : res0 = res1 ->
+  apply_msg add res0 idxs vals = apply_msg add res1 idxs vals.
+Proof. intros ->. reflexivity. Qed.
+
+(* the concrete reverse exchange (sum) is the image of the symbolic one *)
+Theorem tap_reverse_hom (tw : tap_world) (syms : list (list (list tok))) (init : list F) q :
+  tap_reverse zero add zero add tw (map (map hv) syms) init q
+  = zipadd init (tap_reverse [] (@app tok) [] (@app tok) tw syms (repeat [] (length init)) q).
+Proof.
+  unfold tap_reverse.
+  set (rk := t_ranks tw). set (dfl := mkTap nopkg [] nopkg nopkg nopkg [] 0 [] []).
+  (* stage buffers are images of the symbolic ones *)
+  assert (EpL : all_ranks tw (fun p => pack_pos zero (nth p (map (map hv) syms) []) (tL_pos (nth p rk dfl)))
+                = map (map hv) (all_ranks tw (fun p => pack_pos [] (nth p syms []) (tL_pos (nth p rk dfl))))).
+  { rewrite all_ranks_map. unfold all_ranks. apply map_ext. intros p. rewrite pack_pos_h.
+    f_equal. change (@nil F) with (map hv []). rewrite map_nth. reflexivity. }
+  assert (EpR : all_ranks tw (fun p => pack_pos zero (nth p (map (map hv) syms) []) (tR_pos (nth p rk dfl)))
+                = map (map hv) (all_ranks tw (fun p => pack_pos [] (nth p syms []) (tR_pos (nth p rk dfl))))).
+  { rewrite all_ranks_map. unfold all_ranks. apply map_ext. intros p. rewrite pack_pos_h.
+    f_equal. change (@nil F) with (map hv []). rewrite map_nth. reflexivity. }
+  rewrite EpL, EpR.
+  set (sL := all_ranks tw (fun p => pack_pos [] (nth p syms []) (tL_pos (nth p rk dfl)))).
+  set (sR := all_ranks tw (fun p => pack_pos [] (nth p syms []) (tR_pos (nth p rk dfl)))).
+  assert (ER : all_ranks tw (fun p => rev_buf zero (map tR rk) (map (map hv) sR) p)
+               = map (map hv) (all_ranks tw (fun p => rev_buf [] (map tR rk) sR p))).
+  { rewrite all_ranks_map. unfold all_ranks. apply map_ext. intros p. symmetry. apply rev_buf_h. }
+  rewrite ER. set (sRs := all_ranks tw (fun p => rev_buf [] (map tR rk) sR p)).
+  assert (EG : all_ranks tw (fun p => dup_combine zero add zero (tG_dup (nth p rk dfl)) (nth p (map (map hv) sRs) []))
+               = map (map hv) (all_ranks tw (fun p => dup_combine [] (@app tok) [] (tG_dup (nth p rk dfl)) (nth p sRs [])))).
+  { rewrite all_ranks_map. unfold all_ranks. apply map_ext. intros p. rewrite dup_combine_h.
+    f_equal. change (@nil F) with (map hv []). rewrite map_nth. reflexivity. }
+  rewrite EG. set (sGp := all_ranks tw (fun p => dup_combine [] (@app tok) [] (tG_dup (nth p rk dfl)) (nth p sRs []))).
+  assert (EGs : all_ranks tw (fun p => rev_buf zero (map tG rk) (map (map hv) sGp) p)
+               = map (map hv) (all_ranks tw (fun p => rev_buf [] (map tG rk) sGp p))).
+  { rewrite all_ranks_map. unfold all_ranks. apply map_ext. intros p. symmetry. apply rev_buf_h. }
+  rewrite EGs. set (sGs := all_ranks tw (fun p => rev_buf [] (map tG rk) sGp p)).
+  rewrite <- (rev_buf_h (map tL rk) sL q).
+  assert (Hinit : zipadd init (repeat [] (length init)) = init).
+  { unfold zipadd. clear -Fth. induction init as [|b init IH]; simpl; [reflexivity|]. rewrite IH. f_equal. unfold hv; simpl. ring. }
+  destruct (apply_msg_zipadd init (repeat [] (length init)) (flat_map snd (send_msgs (tL (nth q rk dfl))))
+              (rev_buf [] (map tL rk) sL q) (repeat_length _ _)) as [H1 H1l].
+  rewrite Hinit in H1.
+  destruct (three_step tw).
+  - assert (ES : all_ranks tw (fun p => dup_combine zero add zero (tS_dup (nth p rk dfl)) (nth p (map (map hv) sGs) []))
+               = map (map hv) (all_ranks tw (fun p => dup_combine [] (@app tok) [] (tS_dup (nth p rk dfl)) (nth p sGs [])))).
+    { rewrite all_ranks_map. unfold all_ranks. apply map_ext. intros p. rewrite dup_combine_h.
+      f_equal. change (@nil F) with (map hv []). rewrite map_nth. reflexivity. }
+    rewrite ES. rewrite <- rev_buf_h.
+    destruct (apply_msg_zipadd init _ (flat_map snd (send_msgs (tS (nth q rk dfl))))
+                (rev_buf [] (map tS rk) (all_ranks tw (fun p => dup_combine [] (@app tok) [] (tS_dup (nth p rk dfl)) (nth p sGs []))) q) H1l) as [H2 _].
+    rewrite H2, H1. reflexivity.
+  - change (@nil F) with (map hv []). rewrite map_nth.
+    destruct (apply_msg_zipadd init _ (flat_map snd (send_msgs (tG (nth q rk dfl)))) (nth q sGs []) H1l) as [H2 _].
+    rewrite H2, H1. reflexivity.
+Qed.
+
+End TapReverse.
+
+Section TapReverseSpec.
+Variable F : Type.
+Variables (zero one : F) (add mul sub : F -> F -> F) (opp : F -> F).
+Variable Fth : ring_theory zero one add mul sub opp (@eq F).
+Add Ring FringT2 : Fth.
+Notation sumF := (sumf F zero add).
+
+Lemma nth_map_dflt {X Y} (f : X -> Y) l i dx dy : f dx = dy -> nth i (map f l) dy = f (nth i l dx).
+Proof. intros <-. apply map_nth. Qed.
+
+Lemma sym_ys_seq (lens : list nat) :
+  sym_ys lens = map (fun p => map (fun j => (p, j)) (seq 0 (nth p lens 0))) (seq 0 (length lens)).
+Proof.
+  apply nth_ext with (d := []) (d' := []).
+  - unfold sym_ys. rewrite !map_length, combine_length, !seq_length. lia.
+  - intros p Hp. rewrite nth_sym_ys.
+    unfold sym_ys in Hp. rewrite map_length, combine_length, seq_length in Hp.
+    rewrite nth_map_seq by lia. reflexivity.
+Qed.
+
+Lemma syms_image (ys : list (list F)) :
+  map (map (hv F zero add ys)) (map (map (fun t : nat * nat => [t])) (sym_ys (map (@length F) ys))) = ys.
+Proof.
+  rewrite sym_ys_seq, !map_map, map_length.
+  transitivity (map (fun p => nth p ys []) (seq 0 (length ys))); [|apply map_nth_seq].
+  apply map_ext_in. intros p Hp. apply in_seq in Hp.
+  rewrite !map_map.
+  replace (nth p (map (@length F) ys) 0) with (length (nth p ys []))
+    by (change 0 with (length (@nil F)); symmetry; apply (map_nth (@length F))).
+  transitivity (map (fun j => nth j (nth p ys []) zero) (seq 0 (length (nth p ys [])))); [|apply map_nth_seq].
+  apply map_ext. intros j. unfold hv, val. simpl. ring.
+Qed.
+
+(* with addition, a node-aware package accepted by tap_rev_ok adds into entry i of owner q exactly the
+   contributions of the slots whose column-map entry is the id of that entry: the same value the standard
+   reverse exchange produces (C03_reverse_sum_is_adjoint) *)
+Theorem tap_reverse_sum_spec (tw : tap_world) (ids colmaps : list (list nat)) (ys : list (list F)) (init : list F) q i :
+  tap_rev_ok tw ids colmaps = true -> q < length (t_ranks tw) ->
+  map (@length F) ys = map (@length nat) colmaps ->
+  length init = length (nth q ids []) -> i < length init ->
+  nth i (tap_reverse zero add zero add tw ys init q) zero
+  = add (nth i init zero)
+        (sumF (map (val zero ys) (expected_wires colmaps (nth i (nth q ids []) 0)))).
+Proof.
+  intros Hok Hq Hlen Hinit Hi.
+  rewrite <- (syms_image ys) at 1.
+  rewrite (tap_reverse_hom F zero one add mul sub opp Fth ys).
+  unfold tap_rev_ok in Hok. rewrite forallb_forall in Hok. specialize (Hok q).
+  rewrite in_seq in Hok. specialize (Hok (conj (Nat.le_0_l q) Hq)).
+  apply andb_prop in Hok. destruct Hok as [Hl Hw]. apply Nat.eqb_eq in Hl.
+  unfold tap_reverse_sym in Hl, Hw. rewrite <- Hlen, <- Hinit in Hl, Hw.
+  set (r := tap_reverse [] (@app (nat * nat)) [] (@app (nat * nat)) tw
+              (map (map (fun t => [t])) (sym_ys (map (@length F) ys))) (repeat [] (length init)) q) in *.
+  unfold zipadd.
+  rewrite (nth_map_dflt (fun bw : F * list (nat * nat) => add (fst bw) (hv F zero add ys (snd bw))) _ i (zero, []) zero)
+    by (unfold hv; simpl; ring).
+  rewrite combine_nth by lia. cbn [fst snd]. f_equal.
+  unfold hv. apply (sumf_perm F zero one add mul sub opp Fth). apply Permutation_map.
+  rewrite forallb_forall in Hw. specialize (Hw (i, nth i r [])). cbn [fst snd] in Hw. apply same_pairs_perm. apply Hw.
+  assert (E : (i, nth i r []) = nth i (combine (seq 0 (length r)) r) (0, [])).
+  { rewrite combine_nth by apply seq_length. rewrite seq_nth by lia. reflexivity. }
+  rewrite E. apply nth_In. rewrite combine_length, seq_length. lia.
+Qed.
+
+(* hence equal to the standard reverse exchange on the same column maps *)
+Theorem tap_reverse_equals_standard (tw : tap_world) (w : world) (ids colmaps : list (list nat)) (ys : list (list F)) (init : list F) q i :
+  tap_rev_ok tw ids colmaps = true -> rev_ok w ids colmaps = true ->
+  q < length (t_ranks tw) -> length w = length (t_ranks tw) ->
+  map (@length F) ys = map (@length nat) colmaps ->
+  length init = length (nth q ids []) -> i < length init ->
+  nth i (tap_reverse zero add zero add tw ys init q) zero = nth i (reverse add w ys init q) zero.
+Proof.
+  intros Ht Hs Hq Hl Hlen Hinit Hi.
+  rewrite (tap_reverse_sum_spec tw ids colmaps ys init q i Ht Hq Hlen Hinit Hi).
+  rewrite (reverse_sum_spec F zero one add mul sub opp Fth w ids colmaps ys init q i Hs ltac:(rewrite Hl; exact Hq) Hlen Hinit Hi).
+  reflexivity.
+Qed.
+End TapReverseSpec.
